@@ -114,7 +114,11 @@ ArithFails(c) ==
            ~good \/ ~evpre.ok \/ \A l \in DOMAIN GP : ev.v[l] = evpre.v[l]>>,
        <<"outputs-marked-differently-than-asked",
            CASE c.outmode = "same" -> post.o = pre.o
-             [] c.outmode = "append" -> post.o = pre.o \o c.outlabels
+             [] c.outmode = "append" ->     \* the returned bits were added to the outputs, nothing else
+                  /\ Len(post.o) = Len(pre.o) + Len(c.outlabels)
+                  /\ SubSeq(post.o, 1, Len(pre.o)) = pre.o
+                  /\ \A x \in SeqSet(post.o) \cup SeqSet(c.outlabels) :
+                        Occ(post.o, x) = Occ(pre.o, x) + Occ(c.outlabels, x)
              [] c.outmode = "set" -> post.o = c.outlabels
              \* exactly the returned bits are added to the outputs (any order; the plus-one gadget
              \* documents no order), nothing else
